@@ -77,7 +77,59 @@ def no_error_guard(b, bb):
         if c.is_fn("Iterator::all") and _all_is_not_severity_error(b, c):
             if b.guarded_by_call(bb, c, want=True):
                 return "errors.iter().all(severity != Error)"
+        pol = _helper_polarity(b, c)
+        if pol is not None and b.guarded_by_call(bb, c, want=(pol == "no-error")):
+            return "%s(errors) [%s]" % (T.short(c.name(), 1), "true = no error" if pol == "no-error" else "false = no error")
     return None
+
+
+_HELPERS = {}
+
+
+def _helper_polarity(b, c):
+    """A private helper `fn h(&Errors) -> bool` that returns one of the audited predicates (possibly negated): 'no-error' if true means
+    'no error of severity error collected', 'has-error' if true means there is one; None if it is anything else."""
+    fx = getattr(b, "_fx", None)
+    callee = c.rdef if fx is not None and c.rdef in fx.thir else c.defn
+    if fx is None or callee not in fx.thir or c.macro:
+        return None
+    if callee in _HELPERS:
+        return _HELPERS[callee]
+    it = None
+    try:
+        it = fx.fn_item(callee)
+    except F.AnchorLost:
+        pass
+    pol = None
+    if it is not None and it.get("output") == "bool" and any(ERRORS_TY in x for x in it.get("inputs", [])):
+        from vlib import absint as A
+
+        def hook(fn, args, node, interp):
+            s2 = T.short(fn, 2)
+            if s2 == "Errors::is_empty":
+                return ("sym", "EMPTY")
+            if s2 in ("Iterator::any", "Iterator::all") and len(args) == 2 and "Errors::iter" in A.vstr(args[0]):
+                clo = args[1]
+                t = fx.thir.get(clo[1]) if clo[0] == "closure" else None
+                txt = T.expr_str(T.user_body(t)) if t is not None else ""
+                if s2.endswith("any") and "Severity::Error" in txt and "severity" in txt and ("Eq" in txt or "PartialEq::eq" in txt) and "Ne" not in txt:
+                    return ("sym", "ANY_ERROR")
+                if s2.endswith("all") and "Severity::Error" in txt and "severity" in txt and ("Ne" in txt or "PartialEq::ne" in txt):
+                    return ("sym", "NO_ERROR")
+            return None
+        try:
+            paths = A.Interp(fx, hook=hook, crates=(NC,), no_inline=("Errors::iter", "Error::severity")).explore(callee)
+        except A.Undecided:
+            paths = []
+        if len(paths) == 1 and paths[0].ret is not None:
+            v, neg = paths[0].ret, False
+            while v[0] == "not":
+                v, neg = v[1], not neg
+            base = {("sym", "EMPTY"): "no-error", ("sym", "NO_ERROR"): "no-error", ("sym", "ANY_ERROR"): "has-error"}.get(v)
+            if base is not None:
+                pol = base if not neg else ("has-error" if base == "no-error" else "no-error")
+    _HELPERS[callee] = pol
+    return pol
 
 
 def _closure_arg_thir(b, c):
